@@ -192,7 +192,7 @@ def r1(ctx: Ctx, rid: str) -> None:
         wr = temp_fd_writes(ctx, wf)  # os.write(fd, ..) or fh.write(..) with fh = os.fdopen(fd)
         dom = ctx.dom(wf, NORMAL)
         ctx.ob(rid, wf, "content is written to the temp fd before the rename", r,
-               bool(wr) and all(w.id in dom[r.id] for w, _fd, _fl in wr) and all(
+               bool(wr) and any(w.id in dom[r.id] for w, _fd, _fl in wr) and all(
                    any(isinstance(c, ast.Call) and (dotted(c.func) or "") == "tempfile.mkstemp"
                        for c in sl.origins(fd_, w.id)["calls"]) for w, fd_, _fl in wr),
                "os.write targets the mkstemp descriptor and dominates os.replace")
